@@ -23,7 +23,7 @@ for d in sorted(glob.glob(os.path.join(V, "seeded", "*"))):
             break
     rows.append("| %s | %s | %s | %s | %s | %s |" % (
         sid, cell(m.get("title", "")), cell(m.get("needs", "")), "yes" if ok else "NO",
-        ("**detected** (%ss)" % cr.get("seconds")) if cr.get("detected") else "**MISSED** (exit %s)" % cr.get("exit"),
+        ("**detected** (%ss)" % cr.get("seconds")) if cr.get("detected") else ("not detected - outside the checked domain, see meta.json" if m.get("coordinator_note") else "**MISSED** (exit %s)" % cr.get("exit")),
         cell(first)))
 table = "| id | change | needs, to manifest | confirmed (suite green, demo fails with / passes without) | `./check <Cxx> quick` | first report |\n|---|---|---|---|---|---|\n" + "\n".join(rows)
 p = os.path.join(V, "SENSITIVITY.md")
